@@ -20,12 +20,21 @@ class Line:
     __slots__ = ("raw", "ok", "label", "sep1", "mnemo", "sep2", "args", "comment", "quote", "lead", "cont")
 
 
+# a statement whose apostrophes all follow a one- or two-letter register name and end the operand
+PRIME_ONLY = re.compile(r"^(?:[^']|(?<![A-Za-z0-9_])[A-Za-z]{1,2}'(?=[ \t,]|$))*$")
+
+
 def lex(raw, prev_cont=False):
     ln = Line()
     ln.raw = raw
     ln.ok = False
     ln.cont = raw.rstrip().endswith("\\")
     ln.quote = ("'" in raw) or ('"' in raw)
+    if ln.quote and '"' not in raw:
+        # the only apostrophes are primes of register names (AF', BC', HL' ...): no string or character constant
+        code_part, _, cmt_part = raw.partition(";")
+        if "'" not in cmt_part and PRIME_ONLY.match(code_part):
+            ln.quote = False
     ln.label = ln.mnemo = ln.args = ln.comment = ""
     ln.sep1 = ln.sep2 = ln.lead = ""
     if prev_cont or ln.cont:
